@@ -319,7 +319,8 @@ func init() {
 					cases[k] = true
 				}
 			})
-			for k := int64(0); k < size; k++ {
+			tableMode := len(cases) == 0 && systemMetricTable(c, f, mt, size, want)
+			for k := int64(0); k < size && !tableMode; k++ {
 				name := constName(mt, k)
 				c.Check(cases[k], fmt.Sprintf("%s / case %s", fnKey(f), name), f.Pos(), "MetricType %s (=%d) has a case in doCheckRule", name, k)
 			}
@@ -327,7 +328,7 @@ func init() {
 			seen := map[string]bool{}
 			eachInstr(f, func(ins ssa.Instruction) {
 				b, ok := ins.(*ssa.BinOp)
-				if !ok || !isComparison(b.Op) || b.Op == token.EQL || b.Op == token.NEQ {
+				if !ok || tableMode || !isComparison(b.Op) || b.Op == token.EQL || b.Op == token.NEQ {
 					return
 				}
 				x, y := accessPath(b.X), accessPath(b.Y)
@@ -365,7 +366,7 @@ func init() {
 				c.Check(ok2, fmt.Sprintf("%s / source %s", fnKey(f), caseName), b.Pos(), "case %s compares %s with rule.TriggerCount (want %v)", caseName, src, want[caseName])
 			})
 			for name := range want {
-				if !seen[name] {
+				if !seen[name] && !tableMode {
 					c.Violate(fmt.Sprintf("%s / source %s", fnKey(f), name), f.Pos(), "case %s no longer compares its metric with rule.TriggerCount", name)
 				}
 			}
@@ -804,4 +805,103 @@ func init() {
 func isBoolT(t types.Type) bool {
 	b, ok := t.Underlying().(*types.Basic)
 	return ok && b.Kind() == types.Bool
+}
+
+// systemMetricTable decides the case/source obligations of system.metric-sources when doCheckRule has no per-type
+// cases but reads a package-level table indexed by rule.MetricType: every MetricType below MetricTypeSize has an
+// element whose reader function returns the metric of the frozen table, and every comparison with rule.TriggerCount
+// compares the value produced by the reader of the element selected by rule.MetricType.
+func systemMetricTable(c *Ctx, f *ssa.Function, mt *types.Named, size int64, want map[string][]string) bool {
+	scope := withNewHelpers([]*ssa.Function{f})
+	var glob *ssa.Global
+	for _, g := range scope {
+		eachInstr(g, func(ins ssa.Instruction) {
+			if ia, ok := ins.(*ssa.IndexAddr); ok {
+				if gl, idx, _ := tableIndexedBy(ia); gl != nil && accessPath(stripConv(idx)) == "{Rule}.MetricType" {
+					glob = gl
+				}
+			}
+		})
+	}
+	if glob == nil {
+		return false
+	}
+	elems, ok := globalTable(glob)
+	if !ok {
+		c.Undecided(fnKey(f)+" / table", f.Pos(), "the per-MetricType table %s is filled under keys that are not constants", glob.Name())
+		return true
+	}
+	// the reader field: the function-typed field of the element
+	readerPath := map[string]bool{}
+	for k := int64(0); k < size; k++ {
+		name := constName(mt, k)
+		var fn *ssa.Function
+		fpath := ""
+		for p, v := range elems[k] {
+			if _, isSig := v.Type().Underlying().(*types.Signature); isSig {
+				fn = funcOfValue(v)
+				fpath = p
+			}
+		}
+		c.Check(fn != nil, fmt.Sprintf("%s / case %s", fnKey(f), name), f.Pos(), "MetricType %s (=%d) has an element with a reader function in the table %s", name, k, glob.Name())
+		if fn == nil {
+			continue
+		}
+		readerPath[fpath] = true
+		src := ""
+		if fn.Parent() == nil { // a named function stored in the table: the metric is that function's result
+			src = fnKey(fn) + "()"
+		} else if rs := returnsOf(fn); len(rs) == 1 && len(rs[0].Results) == 1 {
+			src = accessPath(stripConv(rs[0].Results[0]))
+		}
+		if src == "" || !strings.Contains(src, "(") {
+			src = fnKey(fn) + "()"
+		}
+		ok2 := true
+		for _, w := range want[name] {
+			if !strings.Contains(src, w) {
+				ok2 = false
+			}
+		}
+		c.Check(ok2, fmt.Sprintf("%s / source %s", fnKey(f), name), fn.Pos(), "the reader of table element %s yields %s (want %v)", name, src, want[name])
+	}
+	// every comparison with TriggerCount compares the selected element's reader result
+	n := 0
+	for _, g := range scope {
+		eachInstr(g, func(ins ssa.Instruction) {
+			b, ok := ins.(*ssa.BinOp)
+			if !ok || !isComparison(b.Op) || b.Op == token.EQL || b.Op == token.NEQ {
+				return
+			}
+			var other ssa.Value
+			switch {
+			case accessPath(b.Y) == "{Rule}.TriggerCount":
+				other = b.X
+			case accessPath(b.X) == "{Rule}.TriggerCount":
+				other = b.Y
+			default:
+				return
+			}
+			n++
+			good := false
+			for _, cs := range splitPhiCases(stripConv(other), b.Block(), nil, 0) {
+				v := stripConv(resolve(stripConv(cs.val)))
+				call, isCall := v.(*ssa.Call)
+				if !isCall || call.Call.IsInvoke() || call.Call.StaticCallee() != nil {
+					good = false
+					break
+				}
+				gl, idx, p := tableIndexedBy(resolve(call.Call.Value))
+				good = gl == glob && readerPath[p] && accessPath(stripConv(idx)) == "{Rule}.MetricType"
+				if !good {
+					break
+				}
+			}
+			c.Check(good, fmt.Sprintf("%s / compare#%d", fnKey(f), n), b.Pos(), "the value compared with rule.TriggerCount is the result of the reader of %s[rule.MetricType]", glob.Name())
+		})
+	}
+	if n == 0 {
+		c.Violate(fnKey(f)+" / compare", f.Pos(), "no comparison of the selected metric with rule.TriggerCount")
+	}
+	return true
 }
